@@ -236,7 +236,8 @@ CHECKS["C16"] = {
             "byte sequences in both directions, nothing echoed, close propagates; duplicate Connect -> 446 and a further request is still served; after every event relay-side connections == model, AllocationCount, relay "
             "listeners; (thorough) also with the deny-B operator policy: refused target never dialled.",
     "parts": [A("vtx", "./checks/c16", "TestC16", budget={"quick": 120, "thorough": 1800}),
-              A("sched", "./checks/bsem", "TestC16Sched", overlay=True, gomaxprocs=1, budget={"quick": 90, "thorough": 1500})],
+              A("sched", "./checks/bsem", "TestC16Sched", overlay=True, gomaxprocs=1, budget={"quick": 90, "thorough": 1500}),
+              A("client-e2e", "./checks/c16", "TestC16ClientE2E", budget={"quick": 90, "thorough": 900})],
 }
 
 CHECKS["C12"] = {
